@@ -244,7 +244,7 @@ def run(ctx):
 
         def opts_fn(i, r):
             return jsgen.Opts(clean=(i % 2 == 0), unicode_idents=(i % 3 == 0), string_continuations=(i % 3 == 1))
-        progs = work.Programs(ctx, ctx.pick(300, 8000), opts_fn=opts_fn)
+        progs = work.Programs(ctx, ctx.per_shard(300, 8000), opts_fn=opts_fn)
         for text, meta in progs:
             check(ctx, text, meta['origin'])
             if ctx.out_of_time():
